@@ -272,6 +272,18 @@ Definition column_stack_dense (d : dense) : dense :=
      d_data := if d_fortran d then d_data d
                else tabulate (d_nr d) (d_nc d) true (den_dense d) |}.
 
+(* ---------------------------------------------------------------- kron *)
+(* kron.pyx::kron_csr: output row row_l*nrows_r + row_r holds, for every
+   entry of the left row (in storage order), the whole right row shifted to
+   column col_l*ncols_r + col_r with the product of the values *)
+Definition kron_csr (l r : csr) : csr :=
+  {| s_nr := s_nr l * s_nr r; s_nc := s_nc l * s_nc r;
+     s_rows := flat_map (fun ra =>
+        map (fun rb =>
+          flat_map (fun pa =>
+            map (fun pb => (fst pa * s_nc r + fst pb, cmul (snd pa) (snd pb))) rb) ra)
+          (s_rows r)) (s_rows l) |}.
+
 (* ------------------------------------------------------------------ dia *)
 Record dia := { a_nr : nat; a_nc : nat; a_diags : list (Z * list C) }.
 
@@ -518,6 +530,7 @@ Definition G_add_dense := add_dense G g0 gadd gmul.
 Definition G_trace_csr := trace_csr G g0 gadd.
 Definition G_trace_dense := trace_dense G g0 gadd.
 Definition G_add_csr := add_csr G g1 gadd gmul gis0 geqb (gtidy 1).
+Definition G_kron_csr := kron_csr G gmul.
 Definition G_reshape_csr := reshape_csr G.
 Definition G_reshape_dense := reshape_dense G g0.
 Definition G_column_stack_csr := column_stack_csr G.
